@@ -44,6 +44,13 @@ def gen_label(r, kind):
         return s
     if kind == 'mixed':
         return ''.join(r.choice(ASCII_L + ASCII_L.upper() + '0123456789') for _ in range(n))
+    if kind == 'alabel':
+        # an already encoded A-label written with mixed case (xn--Bcher-KVA): valid input, must come out lower-case
+        alpha = r.choice(IDN_ALPHABETS[:1] + IDN_ALPHABETS[2:4])
+        u = ''.join(r.choice(alpha) for _ in range(r.randint(1, 5))) + ''.join(r.choice(ASCII_L) for _ in range(r.randint(1, 5)))
+        a = 'xn--' + u.encode('punycode').decode('ascii')
+        mixed = ''.join(ch.upper() if r.random() < 0.5 else ch for ch in a[4:])
+        return r.choice(['xn--', 'xn--', 'XN--', 'Xn--']) + mixed
     alpha = r.choice(IDN_ALPHABETS)
     s = ''.join(r.choice(alpha) for _ in range(r.randint(1, 8)))
     if r.random() < 0.5:
@@ -58,7 +65,7 @@ def gen_domain(r, shape=None):
     n = r.randint(1, 5)
     labs = []
     for _ in range(n):
-        k = shape if shape != 'combo' else r.choice(['ascii', 'mixed', 'idn'])
+        k = shape if shape != 'combo' else r.choice(['ascii', 'mixed', 'idn', 'alabel'])
         labs.append(gen_label(r, k))
     # TLD-like last label alphabetic
     return '.'.join(labs)
